@@ -441,7 +441,7 @@ func run(r *core.Run) int {
 	cs := cells()
 	r.Set("verify_cells", len(cs))
 	r.Exhaustive(true)
-	core.Parallel(len(cs), func(i int) { judgeCell(r, cs[i]) })
+	r.Parallel(len(cs), func(i int) { judgeCell(r, cs[i]) })
 	signCells(r)
 	return r.Finish(len(cs),
 		core.Require{Counter: "accepted-diagonal", Why: "no approved pairing was accepted"},
